@@ -25,7 +25,9 @@ CONSTANTS
   WithSerial,     \* also the build without OpenMP
   WithAsan,       \* also the AddressSanitizer/UBSan build (one run per case)
   Groups,         \* trace: set of [kernel, case, variant, indexmaps, noncontig, p2sprefix, runs : set of run records]
-  Glue            \* trace: set of glue records (see GlueOK)
+  Glue,           \* trace: set of glue records (see GlueOK)
+  FlagArgs,       \* from the glue (c/_phonopy.cpp signatures): set of <<kernel, name of an integer / bool / char* scalar argument>>
+  Divergent       \* from the sources: set of [site, kernels] - code compiled only with / only without _OPENMP and the kernels reaching it
 
 VARIABLES phase, cfg, grp
 vars == <<phase, cfg, grp>>
@@ -119,4 +121,26 @@ ImplKernelKnown           == InCheck => ReqKernelKnown(grp)
 ImplGlue                  == (phase = "glue") => GlueOK(grp)
 ImplAllKernelsCovered     == (phase = "cover") => Covered
 ImplIndexMapCoverage      == (phase = "cover") => IndexMapCovered /\ LimitCovered
+
+(* Every scalar mode argument of every kernel (`classical`, `use_openmp`,    *)
+(* `is_nac`, `is_nac_q_zero`, `use_Wang_NAC`, `initialize`, `level`,         *)
+(* `function`; the list is read off the glue signatures, so a new flag is    *)
+(* picked up) takes at least two values among the cases, and each value is   *)
+(* executed on every build of the matrix: each (kernel, flag value, build)   *)
+(* cell is exercised.  g.flags is the set of <<argument name, value>> pairs  *)
+(* of the case (projected from the recorded argument tuple).                 *)
+BuildsOfMatrix == {k.build : k \in RunKeys}
+FlagValues(k, a, b) ==
+  {fv[2] : fv \in {x \in UNION {g.flags : g \in {h \in Groups : h.kernel = k /\ \E r \in h.runs : r.build = b}} : x[1] = a}}
+FlagCellsCovered ==
+  \A ka \in FlagArgs : (ka[1] \in Kernels) =>
+     \A b \in BuildsOfMatrix : Cardinality(FlagValues(ka[1], ka[2], b)) >= 2
+(* code that exists in only one of the builds must be reached by a kernel    *)
+(* whose cases run on the OpenMP and on the serial build (and are compared   *)
+(* there by ImplBuildsAgree / ImplMatchesReference)                         *)
+DivergentCovered ==
+  \A d \in Divergent : \A k \in d.kernels \cap Kernels :
+     \E g \in Groups : g.kernel = k /\ {"omp", "serial"} \subseteq {r.build : r \in g.runs}
+ImplFlagCellsCovered      == (phase = "cover") => FlagCellsCovered
+ImplDivergentCovered      == (phase = "cover") => DivergentCovered
 =============================================================================
